@@ -149,7 +149,7 @@ class Run:
         self.caps: list = []
 
     # -- enumeration driver -------------------------------------------------
-    def drive(self, cases, family: str = "main", chunksize: int = 1, init_args=(), max_samples: int = 3, serial=False):
+    def drive(self, cases, family: str = "main", chunksize: int = 1, init_args=(), max_samples: int = 3, serial=False, fresh_process=False):
         """Run every case of `cases` (a list of JSON-able dicts) through <module>.run_case in a worker pool.
 
         Results are consumed in enumeration order, whatever order the workers finish in.  VERIF_SEED
@@ -170,7 +170,10 @@ class Run:
                 results[i] = r
         else:
             ctx = mp.get_context("fork")
-            with ctx.Pool(min(NPROC, n), initializer=_pool_init, initargs=(self.modname, init_args)) as pool:
+            # fresh_process: every case runs in a newly forked worker, so nothing an earlier case left behind in the process
+            # (module-level caches, mutated defaults) can mask or cause a history-dependent failure
+            with ctx.Pool(min(NPROC, n), initializer=_pool_init, initargs=(self.modname, init_args),
+                          maxtasksperchild=1 if fresh_process else None) as pool:
                 for i, r in pool.imap_unordered(_pool_run, items, chunksize=chunksize):
                     results[i] = r
         for i, r in enumerate(results):
